@@ -8,11 +8,11 @@
   column = `typeConfusion`, short column = `oobRow`).  `Spec.query` is the reference: filter the
   denoted map by component sets, look the viewed components up by type.
 
-  Mutation through query-wide `&mut` views (`World.queryWrite`) and the parallel iterators are
-  compared with the code by the correspondence check (C09 for the latter); single-entity writes
-  are in C01 (`C01_write`: seen by later reads of that entity only).
+  Mutation through query-wide `&mut` views is `World.queryWrite` (`C03_query_write`: only matching
+  entities change, only in the components viewed mutably, the invariant is preserved); single-
+  entity writes are in C01 (`C01_write`).  The parallel iterators are C09.
 -/
-import BroodModel.Lemmas.QueryL
+import BroodModel.Lemmas.QueryWrite
 
 namespace Brood
 
@@ -49,6 +49,21 @@ theorem C03_rows_characterised {w : World} (hi : Inv w) (vs : List View) (f : Fi
     exact ⟨e.id, e.vals, (mem_ents_iff hi).mp he, hm, rfl⟩
   · rintro ⟨id, vals, he, hm, rfl⟩
     exact ⟨⟨id, vals⟩, ⟨(mem_ents_iff hi).mpr he, hm⟩, rfl⟩
+
+/-- **Writes through the mutable views of a query are seen by later reads of the written entities
+only**: after the write, an entity's values differ from before only if the entity matches the
+query, and then only in the components viewed mutably (each replaced by the written value — here
+a fresh copy); `len` and the invariant are preserved, so every later query / entry read (by
+`C03_query_exact`, `C03_entry_query`) sees exactly this map. -/
+theorem C03_query_write {w : World} (hi : Inv w) (vs : List View) (f : Filter) (e : Nat) :
+    Inv (w.queryWrite vs f e).1 ∧ (w.queryWrite vs f e).1.len = w.len ∧
+    ∀ id, (w.queryWrite vs f e).1.entity id =
+      (w.entity id).map (fun vals =>
+        if specMatches vs f (Spec.maskOf w.n vals) then
+          vals.map (fun v =>
+            if ((vs.filter View.isMut).filterMap View.comp?).contains v.ty then cloneVal e v else v)
+        else vals) :=
+  queryWrite_spec hi vs f e
 
 /-- Optional views and identifiers never restrict the result set; `&C` / `&mut C` require the
 component. -/
@@ -102,6 +117,7 @@ end Brood
 
 #print axioms Brood.C03_query_exact
 #print axioms Brood.C03_entities_exact
+#print axioms Brood.C03_query_write
 #print axioms Brood.C03_rows_characterised
 #print axioms Brood.C03_view_filters
 #print axioms Brood.C03_entry_query
